@@ -679,7 +679,9 @@ func (e *Exec) ghostCall(f *frame, in ssa.Instruction, fn *ssa.Function, args []
 			// constants and parameters are state independent
 			return args[0], h, g
 		}
-		panic(fmt.Sprintf("old(): no pre-state value was recorded for %s in %s", call.Call.Args[0], fn.Name()))
+		// the run in the pre-state did not pass here (the branch was decided the other way there): the old value
+		// is not known - an unconstrained value of the right sort (never the current one)
+		return e.freshVal("oldunk", call.Call.Args[0].Type()), h, g
 	case "isType":
 		ta := fn.TypeArgs()[0]
 		v := args[0]
@@ -1016,6 +1018,24 @@ func (e *Exec) contractCall(f *frame, in ssa.Instruction, sp *FuncSpec, key stri
 		e.reassertPrivate(pre, post)
 	}
 	e.applyGhostSets(sp, full, post, g)
+	// ghost variables the callee assigns at its own calls ("atcall ... sets"): their values after the call are the
+	// callee's, unknown here - forgotten before its postconditions (which may mention them) are assumed. Without
+	// this a postcondition "ret0 ==> ghostX" would be read against the caller's value of ghostX.
+	if !sp.Trusted {
+		done := map[string]bool{}
+		for _, c := range sp.Clauses {
+			if c.Kind != KAtCallSet || done[c.Label] {
+				continue
+			}
+			done[c.Label] = true
+			if pkg := e.eng.ld.ssaPkg(sp.PkgPath); pkg != nil {
+				if varFn := pkg.Func(c.GoName + "_var"); varFn != nil {
+					a := e.addrOf(e.evalSpecVal(varFn, nil, post))
+					e.storeAt(post, a, e.s.freshConst("cg", e.s.sortOf(a.Typ)))
+				}
+			}
+		}
+	}
 	e.lockOps(sp, args, post)
 	gout := g
 	for _, c := range sp.Clauses {
